@@ -48,7 +48,7 @@ pub fn prop31() -> Prop {
     Prop {
         id: "C31", title: "Seeded simulations are reproducible", level: "exploration",
         rule: "For generated programs, Seeded{seed}/Known{v} initialization, seeded TimerDevices (exact counts and ranges) with installed ISRs, and keyboard input, two simulators are constructed and run independently (one by step_in, compared step by step; in half of the cases the second is instead driven by run_with_limit segments and compared at segment ends): \
-               R0-R7, PC, PSR, instructions_run, frame depth, display, keyboard queue after every step, a digest of all 64K words (value and initialization) every 64 steps and at the end. Known{v}: every register and every word outside the OS image and the I/O page holds v and is uninitialized. \
+               in half of the runs both machines are disturbed identically midway (the program is loaded again over the running image, or reset() + reload with the timers still attached); R0-R7, PC, PSR, instructions_run, frame depth, display, keyboard queue after every step, a digest of all 64K words (value and initialization) every 64 steps and at the end. Known{v}: every register and every word outside the OS image and the I/O page holds v and is uninitialized. \
                Non-trivial = run of at least 20 steps with a timer interrupt or uninitialized data read; distinct = (program, seeds).",
         assumptions: &["two constructions in one process are independent (no shared global state besides the cached OS object file)"],
         run: run31, guard: guard31,
@@ -155,6 +155,8 @@ fn run30(ctx: &mut Ctx) {
         let mut recs: Vec<(u16, Recorder, Vec<u16>)> = vec![];
         let mut bps: Vec<u16> = vec![];
         let mut maps: Vec<u16> = vec![SP_PORT];
+        let mut removed_defaults: Vec<u16> = vec![];
+        let mut replaced: Vec<u16> = vec![];
         let mut next_id = 3u16;
         let (mut executed, mut configured) = (false, false);
         let nops = 3 + rng.usize(23);
@@ -171,7 +173,15 @@ fn run30(ctx: &mut Ctx) {
                 9 => { let r = Recorder::new(next_id); let ports: Vec<u16> = (0..1 + rng.usize(2)).map(|_| 0xFE20 + 2 * rng.below(40) as u16).collect(); if let Ok(id) = sim.device_handler.add_device(r.clone(), &ports) { if id != next_id { ctx.violation("device-id-sequence", format!("add_device returned id {id}, expected {next_id}"), case(&hist)); return; } recs.push((id, r, ports.clone())); next_id += 1; configured = true; hist.push(format!("add device {id} on {ports:04X?}")); } }
                 10 => { if !recs.is_empty() && rng.bool() { let i = rng.usize(recs.len()); let (id, _, _) = recs.remove(i); sim.device_handler.remove_device(id); hist.push(format!("remove device {id}")); } else { let kb = BufferedKeyboard::default(); kb.get_buffer().write().unwrap().extend([1u8, 2, 3]); sim.device_handler.set_keyboard(kb); sim.device_handler.set_display(BufferedDisplay::default()); hist.push("set keyboard/display".into()); } }
                 11 => { let p = 0xFF00 + 2 * rng.below(60) as u16; let r = *rng.pick(&[InternalRegister::PC, InternalRegister::PSR, InternalRegister::MCR, InternalRegister::SavedSP]); if sim.mmap_internal(p, r).is_ok() { maps.push(p); configured = true; hist.push(format!("mmap x{p:04X} = {r:?}")); } }
-                12 => { if maps.len() > 1 && rng.bool() { let p = maps.pop().unwrap(); sim.munmap_internal(p); hist.push(format!("munmap x{p:04X}")); } }
+                12 => {
+                    if rng.chance(1, 3) {
+                        // remove (and sometimes replace) one of the two default mappings
+                        let p = *rng.pick(&[0xFFFCu16, 0xFFFE]);
+                        if sim.munmap_internal(p) { removed_defaults.push(p); maps.retain(|x| *x != p); hist.push(format!("munmap default x{p:04X}")); }
+                        if rng.bool() && sim.mmap_internal(p, InternalRegister::PC).is_ok() { removed_defaults.retain(|x| *x != p); replaced.push(p); hist.push(format!("mmap x{p:04X} = PC (replacing the default)")); }
+                        configured = true;
+                    } else if maps.len() > 1 && rng.bool() { let p = maps.pop().unwrap(); sim.munmap_internal(p); hist.push(format!("munmap x{p:04X}")); }
+                }
                 _ => { let (a, v) = match rng.below(3) { 0 => (0xFFFCu16, rng.u16()), 1 => (SP_PORT, rng.u16()), _ => (0xFE00, 0x4000) }; let _ = sim.write_mem(a, Word::new_init(v), priv_ctx()); hist.push(format!("MMIO write x{a:04X} = x{v:04X}")); }
             }
         }
@@ -196,7 +206,10 @@ fn run30(ctx: &mut Ctx) {
         if sim.flags != flags { ctx.violation("reset:flags-lost", format!("{:?}", sim.flags), c()); return; }
         if sim.breakpoints.len() != nbp || bps.iter().any(|a| !sim.breakpoints.contains(&Breakpoint::PC(*a))) { ctx.violation("reset:breakpoints-lost", format!("{} breakpoints, expected {nbp}", sim.breakpoints.len()), c()); return; }
         if !Arc::ptr_eq(sim.mcr(), &mcr0) { ctx.violation("reset:mcr-handle-replaced", "mcr() is a different Arc after reset", c()); return; }
-        for p in &maps { if !sim.munmap_internal(*p) { ctx.violation("reset:internal-mapping-lost", format!("port x{p:04X} is no longer mapped"), c()); return; } }
+        replaced.retain(|p| !removed_defaults.contains(p));
+        for p in &replaced { sim.pc = 0x4242; let v = sim.read_mem(*p, priv_ctx()).map(|w| w.get()).unwrap_or(0); if v != 0x4242 { ctx.violation("reset:replaced-default-mapping-lost", format!("port x{p:04X} was re-mapped to PC before the reset but reads x{v:04X} afterwards"), c()); return; } sim.pc = 0x3000; ctx.count("resets.with-replaced-default-mapping"); }
+        for p in &removed_defaults { if replaced.contains(p) { continue; } if sim.munmap_internal(*p) { ctx.violation("reset:removed-default-mapping-came-back", format!("the default mapping at x{p:04X} was removed before the reset and is mapped again afterwards"), c()); return; } ctx.count("resets.with-removed-default-mapping"); }
+        for p in &maps { if replaced.contains(p) || removed_defaults.contains(p) { continue; } if !sim.munmap_internal(*p) { ctx.violation("reset:internal-mapping-lost", format!("port x{p:04X} is no longer mapped"), c()); return; } }
         for (id, r, ports) in &recs {
             r.take();
             let v = sim.read_mem(ports[0], priv_ctx()).map(|w| w.get()).unwrap_or(0);
@@ -215,7 +228,7 @@ fn run30(ctx: &mut Ctx) {
 }
 fn guard30(m: &Merged, _t: Tier) -> Vec<String> {
     let mut out = vec![];
-    for k in ["resets.checked", "resets.with-devices", "resets.with-extra-mappings", "resets.debug-frames-on", "resets.with-breakpoints"] { need(m, &mut out, k, 50); }
+    for k in ["resets.with-removed-default-mapping", "resets.with-replaced-default-mapping", "resets.checked", "resets.with-devices", "resets.with-extra-mappings", "resets.debug-frames-on", "resets.with-breakpoints"] { need(m, &mut out, k, 50); }
     out
 }
 
@@ -249,8 +262,27 @@ fn run31(ctx: &mut Ctx) {
         if digest(&a.sim) != digest(&b.sim) || small(&a) != small(&b) { ctx.violation("construction-not-reproducible", "two constructions with the same seed differ before any step", case()); return; }
         let by_run = idx % 2 == 1;
         let mut steps = 0u64; let mut entries = 0u64;
+        // at some point both machines get the same disturbance: the program is loaded again over the running image
+        // (its .blkw words now cover initialized data), or the machine is reset (devices are io_reset) and reloaded
+        let disturb_at = if rng.chance(1, 2) { Some(5 + rng.below(200)) } else { None };
+        let disturb_reset = rng.bool();
+        let obj = lc3_ensemble::parse::parse_ast(&prog.text).ok().and_then(|ast| lc3_ensemble::asm::assemble(ast).ok());
+        let isr_obj = lc3_ensemble::parse::parse_ast(&isr).ok().and_then(|ast| lc3_ensemble::asm::assemble(ast).ok());
+        let mut disturbed = false;
         let cap = 3000;
         while steps < cap {
+            if let (Some(k), false, Some(o), Some(io)) = (disturb_at, disturbed, &obj, &isr_obj) {
+                if steps >= k {
+                    disturbed = true;
+                    for m in [&mut a, &mut b] {
+                        if disturb_reset { m.sim.reset(); let _ = m.sim.load_obj_file(io); m.sim.mem[0x0190] = Word::new_init(0x1000); m.sim.mem[0x0191] = Word::new_init(0x1000); m.kb.get_buffer().write().unwrap().extend(kbd.iter().copied()); }
+                        let _ = m.sim.load_obj_file(o);
+                        if disturb_reset { m.sim.pc = 0x3000; }
+                    }
+                    ctx.count(if disturb_reset { "runs.reset-and-reload-midway" } else { "runs.reload-midway" });
+                    if small(&a) != small(&b) || digest(&a.sim) != digest(&b.sim) { ctx.violation(if disturb_reset { "state-differs:after-reset" } else { "state-differs:after-reload" }, format!("the two machines differ right after the same {} at step {steps}", if disturb_reset { "reset + reload" } else { "reload" }), case()); return; }
+                }
+            }
             let seg = if by_run { 1 + rng.below(40) } else { 1 };
             let mut ra = Ok(());
             let mut a_done = false;
@@ -284,7 +316,7 @@ fn run31(ctx: &mut Ctx) {
 }
 fn guard31(m: &Merged, _t: Tier) -> Vec<String> {
     let mut out = vec![];
-    for k in ["runs.with-timer-interrupts", "runs.segmented", "runs.stepwise", "init.known", "init.seeded"] { need(m, &mut out, k, 30); }
+    for k in ["runs.with-timer-interrupts", "runs.segmented", "runs.stepwise", "init.known", "init.seeded", "runs.reset-and-reload-midway", "runs.reload-midway"] { need(m, &mut out, k, 30); }
     need(m, &mut out, "steps.compared", 50_000);
     out
 }
